@@ -177,20 +177,99 @@ Proof.
   rewrite Hc. destruct (cond' s); [|reflexivity]. rewrite Hb. apply IH.
 Qed.
 
-Lemma eq_get_equal_electrical_potential_nodes d p :
-  g__get_equal_electrical_potential_nodes d p = equal_potential_nodes d p.
+(* the source form `old = 0; while len(X) > old: old = len(X); for line in self.line_elements: n1, n2 = get_nodes(line); ..` *)
+Lemma closure_form_while d p :
+  (let X := set_of_list [p] in
+   let old := 0 in
+   let '(old, X) := while_loop (loop_bound (g_line_elements d)) (fun '(old, X) => Nat.ltb old (length X))
+     (fun '(old, X) =>
+        let old := length X in
+        let X := fold_left (fun (X : list point) (line : symbol) =>
+                   let n1 := rounded_anchor line A_start in let n2 := rounded_anchor line A_end in
+                   let X := if set_mem n1 X then let X := set_add n2 X in X
+                            else let X := if set_mem n2 X then let X := set_add n1 X in X else X in X in X)
+                   (g_line_elements d) X in
+        (old, X)) (old, X) in X)
+  = equal_potential_nodes d p.
 Proof.
-  unfold g__get_equal_electrical_potential_nodes, equal_potential_nodes.
-  rewrite eq_line_elements.
+  cbv zeta. rewrite eq_line_elements.
   assert (Hlen : length (line_elements d) = length (wires d)) by (unfold wires; rewrite map_length; reflexivity).
   unfold loop_bound. rewrite Hlen.
   pose proof (python_closure_loop (wires d) p 0) as H. rewrite !Nat.add_0_r in H.
-  rewrite <- H. clear H.
+  unfold equal_potential_nodes. rewrite <- H. clear H.
   erewrite (while_loop_ext _ closure_cond _ (closure_body (wires d))).
   - change (set_of_list [p]) with [p]. destruct (while_loop _ _ _ _). reflexivity.
   - intros [old X]. reflexivity.
   - intros [old X]. unfold closure_body. rewrite <- gen_body_pass. reflexivity.
 Qed.
+
+(* the form `ends = [get_nodes(line) for line in self.line_elements]; while True: old = len(X); for n1, n2 in ends: ..;
+   if len(X) == old: return X` *)
+Definition until_body (ws : list (point * point)) (X : list point) : nat * list point := (length X, pass ws X).
+Definition until_stop (st : nat * list point) : bool := let '(old, X) := st in Nat.eqb (length X) old.
+Definition until_next (st : nat * list point) : list point := let '(old, X) := st in X.
+
+Lemma do_until_iterate ws : forall f X,
+  snd (do_until f (until_body ws) until_stop until_next X) = iterate ws (S f) X.
+Proof.
+  induction f as [|f IH]; intros X.
+  - cbn [do_until until_body snd iterate]. destruct (Nat.ltb (length X) (length (pass ws X))); reflexivity.
+  - cbn [do_until]. change (iterate ws (S (S f)) X)
+      with (if Nat.ltb (length X) (length (pass ws X)) then iterate ws (S f) (pass ws X) else pass ws X).
+    pose proof (pass_length ws X) as Hle. unfold until_body at 1 3. cbn [until_stop until_next].
+    destruct (Nat.eqb_spec (length (pass ws X)) (length X)) as [E|E].
+    + destruct (Nat.ltb_spec (length X) (length (pass ws X))) as [L|_]; [lia|reflexivity].
+    + destruct (Nat.ltb_spec (length X) (length (pass ws X))) as [_|L]; [apply IH|lia].
+Qed.
+
+Lemma do_until_ext {S S'} (body body' : S -> S') (stop stop' : S' -> bool) (next next' : S' -> S) :
+  (forall s, body s = body' s) -> (forall s, stop s = stop' s) -> (forall s, next s = next' s) ->
+  forall f s, do_until f body stop next s = do_until f body' stop' next' s.
+Proof.
+  intros Hb Hs Hn. induction f as [|f IH]; intros s; cbn [do_until]; rewrite Hb; [reflexivity|].
+  rewrite Hs. destruct (stop' (body' s)); [reflexivity|]. rewrite Hn. apply IH.
+Qed.
+
+Lemma gen_body_pass_pairs (ws : list (point * point)) (X : list point) :
+  fold_left (fun (X : list point) '(n1, n2) =>
+               if set_mem n1 X then set_add n2 X else if set_mem n2 X then set_add n1 X else X) ws X
+  = pass ws X.
+Proof. unfold pass. apply fold_left_ext_in. intros Y [a b] _. reflexivity. Qed.
+
+Lemma closure_form_until d p :
+  (let X := set_of_list [p] in
+   let ends := map (fun line => (rounded_anchor line A_start, rounded_anchor line A_end)) (g_line_elements d) in
+   let '(old, X) := do_until (loop_bound ends)
+     (fun X =>
+        let old := length X in
+        let X := fold_left (fun (X : list point) '(n1, n2) =>
+                   let X := if set_mem n1 X then let X := set_add n2 X in X
+                            else let X := if set_mem n2 X then let X := set_add n1 X in X else X in X in X)
+                   ends X in
+        (old, X))
+     (fun '(old, X) => Nat.eqb (length X) old) (fun '(old, X) => X) X in X)
+  = equal_potential_nodes d p.
+Proof.
+  cbv zeta. rewrite eq_line_elements.
+  change (map (fun line => (rounded_anchor line A_start, rounded_anchor line A_end)) (line_elements d)) with (wires d).
+  change (set_of_list [p]) with [p].
+  rewrite (do_until_ext _ (until_body (wires d)) _ until_stop _ until_next).
+  - pose proof (do_until_iterate (wires d) (loop_bound (wires d)) [p]) as H.
+    destruct (do_until _ _ _ _ _) as [old X]. cbn [snd] in H. rewrite H.
+    unfold loop_bound. rewrite <- (closure_fuel d p 2). f_equal. lia.
+  - intros X. unfold until_body. rewrite <- gen_body_pass_pairs. reflexivity.
+  - intros [old X]. reflexivity.
+  - intros [old X]. reflexivity.
+Qed.
+
+(* more fuel never changes the result of the `while True` form either *)
+Lemma until_loop_fuel d p k :
+  snd (do_until (loop_bound (wires d) + k) (until_body (wires d)) until_stop until_next [p]) = equal_potential_nodes d p.
+Proof. rewrite do_until_iterate. unfold loop_bound. rewrite <- (closure_fuel d p (2 + k)). f_equal. lia. Qed.
+
+Lemma eq_get_equal_electrical_potential_nodes d p :
+  g__get_equal_electrical_potential_nodes d p = equal_potential_nodes d p.
+Proof. first [exact (closure_form_while d p) | exact (closure_form_until d p)]. Qed.
 
 (* more fuel never changes the result of the Python loop *)
 Lemma closure_loop_fuel d p k :
@@ -300,13 +379,47 @@ Proof.
   destruct (filter (fun u => pmem u (equal_potential_nodes d n) && negb (pt_eqb u n)) (unique_nodes d oa)) as [|u r]; reflexivity.
 Qed.
 
-Lemma eq_unique_node_mapping d oa : g_unique_node_mapping d oa = Ok (unm_dict d oa).
+(* self.unique_nodes read in every round of the loop, the entry written by `if ..: D.update({n: ..pop()}) else: D.update({n: n})` *)
+Lemma unm_form_loop d oa :
+  (let m : kdict point := [] in
+   bind (for_res (set_iter oa (g_all_nodes d)) m (gen_unm_step d oa)) (fun m => Ok m)) = Ok (unm_dict d oa).
 Proof.
-  unfold g_unique_node_mapping, unm_dict, set_iter.
-  change (bind (for_res oa [] (gen_unm_step d oa)) (fun v => Ok v) = Ok (fold_left (fun m n => kd_set m n (rep d oa n)) oa [])).
+  cbv zeta. unfold unm_dict, set_iter.
   rewrite (for_res_ok oa (gen_unm_step d oa) (fun m n => kd_set m n (rep d oa n))); [reflexivity|].
   intros s x _. apply gen_unm_step_ok.
 Qed.
+
+(* self.unique_nodes read once before the loop, the entry written by `D[n] = cur.pop() if len(cur) > 0 else n` *)
+Definition gen_unm_step_hoisted d (U : list point) (m : kdict point) (n : point) : res (kdict point) :=
+  let identical := g__get_equal_electrical_potential_nodes d n in
+  bind (set_remove n identical) (fun identical =>
+  let cur := set_inter U identical in
+  bind (if Nat.ltb 0 (length cur) then bind (set_pop cur) (fun '(x, cur) => Ok (x, cur)) else Ok (n, cur))
+       (fun '(x, cur) => let m := kd_set m n x in Ok m)).
+
+Lemma gen_unm_step_hoisted_ok d oa m n : gen_unm_step_hoisted d (unique_nodes d oa) m n = Ok (kd_set m n (rep d oa n)).
+Proof.
+  unfold gen_unm_step_hoisted. rewrite eq_get_equal_electrical_potential_nodes.
+  unfold set_remove. rewrite closure_self. cbn [bind]. unfold set_inter, rep.
+  assert (Hf : filter (fun x => pmem x (filter (fun y => negb (pt_eqb y n)) (equal_potential_nodes d n))) (unique_nodes d oa)
+               = filter (fun u => pmem u (equal_potential_nodes d n) && negb (pt_eqb u n)) (unique_nodes d oa)).
+  { apply filter_ext. intros x. apply pmem_filter. }
+  rewrite Hf. clear Hf.
+  destruct (filter (fun u => pmem u (equal_potential_nodes d n) && negb (pt_eqb u n)) (unique_nodes d oa)) as [|u r]; reflexivity.
+Qed.
+
+Lemma unm_form_hoisted d oa :
+  (let m : kdict point := [] in
+   bind (g_unique_nodes d oa) (fun U =>
+   bind (for_res (set_iter oa (g_all_nodes d)) m (gen_unm_step_hoisted d U)) (fun m => Ok m))) = Ok (unm_dict d oa).
+Proof.
+  cbv zeta. rewrite eq_unique_nodes. cbn [bind]. unfold unm_dict, set_iter.
+  rewrite (for_res_ok oa (gen_unm_step_hoisted d (unique_nodes d oa)) (fun m n => kd_set m n (rep d oa n))); [reflexivity|].
+  intros s x _. apply gen_unm_step_hoisted_ok.
+Qed.
+
+Lemma eq_unique_node_mapping d oa : g_unique_node_mapping d oa = Ok (unm_dict d oa).
+Proof. first [exact (unm_form_loop d oa) | exact (unm_form_hoisted d oa)]. Qed.
 
 Lemma kd_fold_get {V} (f : point -> V) (l : list point) : forall (m : kdict V) p,
   kd_get (fold_left (fun m n => kd_set m n (f n)) l m) p = if pmem p l then Some (f p) else kd_get m p.
@@ -424,8 +537,10 @@ Definition get_element (d : drawing) (name : label) : res symbol :=
 Lemma eq_get_element d name : g_get_element d name = get_element d name.
 Proof.
   unfold g_get_element, get_element. rewrite eq_circuit_elements.
-  induction (circuit_elements d) as [|e l IH]; [reflexivity|].
-  simpl. destruct (label_eqb (s_name e) name); [reflexivity|exact IH].
+  (* `for e in ..: if e.name == name: return e` IS the first match; `[e for e in .. if ..]` + `[0]` is its list form *)
+  first [reflexivity
+        |induction (circuit_elements d) as [|e l IH]; [reflexivity|];
+         simpl; destruct (label_eqb (s_name e) name); [reflexivity|exact IH]].
 Qed.
 
 (* ====================================================================================================== *)
